@@ -237,3 +237,19 @@ func VerifC01Increment() {
 	p.Step(bin("&", nm("p0"), ilit(1)), true, "bit-operation-afterwards")
 	vrt.Cover("done")
 }
+
+// VerifC01Cross: A op B for every pairing of operand classes (plain, indexed, sliced, call
+// result, array element, negated, compound, compound under those), against the reference.
+func VerifC01Cross() {
+	p := NewPair()
+	a, b, op := p.G.Cross()
+	e := bin(op, a, b)
+	prog, used := Embed([...]int{0, 3, 2}[vrt.Choice("ctx", 3)], e)
+	vrt.Note("program", Src(prog))
+	p.Pre()
+	if p.Step(prog, used, "program") {
+		vrt.Cover("runtime-error")
+	} else {
+		vrt.Cover("value")
+	}
+}
